@@ -413,6 +413,39 @@ Definition c09_spec_on_obs (w : wcase) : bool :=
 
 Definition case_spec_ok_C09 (w : wcase) : bool := negb (c09_domain w) || c09_spec_on_obs w.
 
+(* size-limit clause of C09 ("a file cannot be ... stat'ed", lazy stat for the size check): the only faults of the
+   tree are failing fs.Stat calls on files, a size limit is set, and at least one file the fault-free scan hands to
+   an extractor that does not itself consult Stat() is among them. Then filesystem.Run fails iff fatal errors were
+   requested - whatever error value the failing Stat returned. *)
+Fixpoint only_file_stat_faults (nd : node) : bool :=
+  match nd with
+  | File _ _ _ _ ff => negb (ff_open ff) && negb (ff_fstat ff)
+  | Dir _ ch df => negb (df_open df) && is_none (df_read_at df) && negb (df_stat df) && forallb only_file_stat_faults ch
+  end.
+
+Definition stat_hit (c : cfg) (t : node) : bool :=
+  existsb (fun ep => is_none (c_statreq c (fst ep)) &&
+                     match lookup_from t (spath (snd ep)) with
+                     | Some (File _ _ _ _ ff) => ff_stat ff
+                     | _ => false
+                     end) (expected_calls c (erase_faults t)).
+
+Definition c09_size_domain (w : wcase) : bool :=
+  match w_roots w with
+  | [t] =>
+      let c := cfg_of_case w in
+      wf_tree t && is_dir t && (0 <? c_max_size c)%Z && no_limits c && xt_no_panic w && nodup_b ln_eqb (w_exts w)
+      && match w_paths w with [] => true | _ => false end
+      && only_file_stat_faults t && stat_hit c t
+  | _ => false
+  end.
+
+Definition c09_size_spec_on_obs (w : wcase) : bool :=
+  if c_fatal (cfg_of_case w) then match o_class (w_obs w) with OErr _ => true | _ => false end
+  else oclass_eqb (o_class (w_obs w)) OOk.
+
+Definition case_spec_ok_C09_size (w : wcase) : bool := negb (c09_size_domain w) || c09_size_spec_on_obs w.
+
 (* the statement without the domain restriction tree_quiet: used to recognise the known findings *)
 Definition c09_base_domain (w : wcase) : bool :=
   match w_roots w with
